@@ -42,6 +42,28 @@ struct Ctx {
   int forced = 0, ops = 0;
 };
 
+// Known finding F41: on exactly coincident lattice operands the Boolean kernel occasionally (about one
+// program in 1e5) returns a result with a *diagonal* face cutting through cells (a vertex off the
+// lattice planes, volume off by a fraction of a cell).  A correct lattice result has only axis-aligned
+// faces, so a mismatch is routed to the finding exactly when the export contains a non-degenerate
+// triangle whose normal is not parallel to an axis; every other mismatch (whole cells lost or
+// gained, wrong operand, wrong side of a plane) stays a violation.
+bool HasDiagonalFace(const oracle::Soup& s) {
+  for (size_t i = 0; i < s.t.size(); ++i) {
+    oracle::V3 a = s.A(i), b = s.B(i), c = s.C(i);
+    double ux = b.x - a.x, uy = b.y - a.y, uz = b.z - a.z, vx = c.x - a.x, vy = c.y - a.y, vz = c.z - a.z;
+    double nx = uy * vz - uz * vy, ny = uz * vx - ux * vz, nz = ux * vy - uy * vx;
+    int nonzero = (std::abs(nx) > 1e-9) + (std::abs(ny) > 1e-9) + (std::abs(nz) > 1e-9);
+    if (nonzero >= 2) return true;
+  }
+  return false;
+}
+bool Mismatch(Outcome& o, const oracle::Soup& s, const std::string& sig, const std::string& msg) {
+  if (HasDiagonalFace(s)) o.known("F41-lattice-diagonal-face", sig + "+diagonal-face", msg);
+  else o.fail(sig, msg);
+  return false;
+}
+
 const char* OpName(OpType op) { return op == OpType::Add ? "+" : op == OpType::Subtract ? "-" : "^"; }
 
 std::pair<Manifold, Vox> GenNode(Ctx& c, int depth) {
@@ -156,12 +178,12 @@ void BigBatch(Tape& t, Outcome& o) {
   oracle::Soup s = oracle::MakeSoup(m);
   long cells = model.count();
   double vol = oracle::Volume(s);
-  if (std::abs(vol - cells) > 1e-9 * cells) { o.fail("lattice:volume", verif::fmt("big union: export volume %.17g, voxel model %ld cells", vol, cells)); return; }
+  if (std::abs(vol - cells) > 1e-9 * cells) { Mismatch(o, s, "lattice:volume", verif::fmt("big union: export volume %.17g, voxel model %ld cells", vol, cells)); return; }
   for (int x = 0; x < G; x += 3)
     for (int y = 0; y < G; y += 2)
       for (int z = 0; z < G; ++z) {
         double w = oracle::Winding(s, oracle::V3(x + 0.5, y + 0.5, z + 0.5));
-        if (std::lround(w) != model.at(x, y, z)) { o.fail("lattice:cell", verif::fmt("big union cell (%d,%d,%d): winding %.6g, model %d", x, y, z, w, int(model.at(x, y, z)))); return; }
+        if (std::lround(w) != model.at(x, y, z)) { Mismatch(o, s, "lattice:cell", verif::fmt("big union cell (%d,%d,%d): winding %.6g, model %d", x, y, z, w, int(model.at(x, y, z)))); return; }
       }
 }
 
@@ -196,13 +218,18 @@ void Body(Tape& t, Outcome& o) {
     return;
   }
   MeshGL64 g = m.GetMeshGL64();
+  if (getenv("VERIF_DEBUG")) {
+    fprintf(stderr, "RESULT nv=%zu nt=%zu volume()=%.17g\n", g.NumVert(), g.NumTri(), m.Volume());
+    for (size_t v = 0; v < g.NumVert(); ++v) fprintf(stderr, "  v%zu (%.17g,%.17g,%.17g)\n", v, g.vertProperties[g.numProp * v], g.vertProperties[g.numProp * v + 1], g.vertProperties[g.numProp * v + 2]);
+    for (size_t t3 = 0; t3 < g.NumTri(); ++t3) fprintf(stderr, "  tri %zu %zu %zu\n", size_t(g.triVerts[3 * t3]), size_t(g.triVerts[3 * t3 + 1]), size_t(g.triVerts[3 * t3 + 2]));
+  }
   oracle::Soup s = oracle::MakeSoup(g);
   long cells = model.count();
   o.cls(cells == 0 ? "empty-result" : "nonempty-result");
   double vol = oracle::Volume(s);
   o.fingerprint = verif::fnv_str(o.desc.str());
   if (std::abs(vol - cells) > 1e-9 * std::max(1L, cells)) {
-    o.fail("lattice:volume", verif::fmt("export volume %.17g, voxel model %ld cells", vol, cells));
+    Mismatch(o, s, "lattice:volume", verif::fmt("export volume %.17g, voxel model %ld cells", vol, cells));
     return;
   }
   for (int x = 0; x < c.G; ++x)
@@ -211,7 +238,7 @@ void Body(Tape& t, Outcome& o) {
         double w = s.t.empty() ? 0.0 : oracle::Winding(s, oracle::V3(x + 0.5, y + 0.5, z + 0.5));
         int in = int(std::lround(w));
         if (std::abs(w - in) > 1e-6 || in != model.at(x, y, z)) {
-          o.fail("lattice:cell", verif::fmt("cell (%d,%d,%d): winding %.9g, model %d", x, y, z, w, int(model.at(x, y, z))));
+          Mismatch(o, s, "lattice:cell", verif::fmt("cell (%d,%d,%d): winding %.9g, model %d", x, y, z, w, int(model.at(x, y, z))));
           return;
         }
       }
